@@ -33,8 +33,16 @@ E2B_NOTE = ("Trusted base: the scripted honest histories of mc/src/e2b.rs (victi
 E2C_NOTE = ("Trusted base: serde_json navigation as the reference (JsonNav, mc/src/e2c.rs); values and scalar accessors reach the interpreter as call results of a one-peer script, the lens is observed through the argument of the next call request; "
             "bounds: the finite value/path/accessor universe stated in the evidence rule (no sampling).")
 E2_TECH = "bounded-exhaustive enumeration of a finite input space through the real entry point (air::execute_air), each answer compared with a reference model"
+E2D_NOTE = ("Trusted base: the encoders/decoders compared are the repository's own public ones (air-interpreter-data, air-interpreter-interface, air-interpreter-sede, avm-interface); honest blobs come from explorations of the real interpreter; evaluations that decode corrupted inner data run in an isolated worker process (mc worker); "
+            "bounds: the harvested blobs, break positions, generated maps and codec prefixes listed in the evidence.")
+E2F_NOTE = ("Trusted base: the harness's own S-expression reader, ScopeCheck and expected rendering in mc/src/e2f.rs (no code shared with air-parser or the beautifier); "
+            "bounds: the script families of DESIGN.md 5 with their single scope mutations, and all token strings up to the stated length over a 26-token alphabet.")
+E18_TECH = E1_TECH + "; caught and uncaught variants of one failure compared across their explored graphs"
 EXTRA = {
  "C21": (E2B_NOTE, E2_TECH), "C22": (E2B_NOTE, E2_TECH), "C24": (E2C_NOTE, E2_TECH),
+ "C27": (E2D_NOTE, "bounded-exhaustive enumeration of encodings and of single-fault corruptions of them against round-trip and refusal oracles"),
+ "C28": (E2F_NOTE, "bounded-exhaustive enumeration of scripts, output read back and compared with an independently computed rendering"),
+ "C18": (E1_NOTE, E18_TECH),
 }
 E2_NOTE = ("Trusted base: serde_json as the reference JSON implementation, sha2 and fluence-blake3 as hash functions, the 60-line reference CID framing in mc/src/e2.rs; "
            "bounds: the finite value universe and mutation catalogue of DESIGN.md 11.4 (no sampling; values outside the universe are not covered).")
@@ -42,6 +50,11 @@ CHECKS.update({
  "C21": ("exploration", "7 C21 and 11.8", "Every version of a grid straddling the minimal supported version (major x minor x patch x pre-release x build) written into the interpreter_version / data_version of the current data, of the previous data, and of an explicitly encoded empty data, for four victim situations: rejected with the unsupported-version code and previous data returned iff older by semver precedence, otherwise the outcome equals the honest run's field by field."),
  "C22": ("exploration", "7 C22 and 11.8", "For six victim situations (script, previous data, current data, call results) every combination of the three limits from {0, size-1, size, size+1, 2^64-1} in hard and soft mode: hard mode rejects iff some size exceeds its limit, with an error naming an exceeded limit and the previous data returned; otherwise the outcome equals the unlimited run and the three flags equal size > limit exactly."),
  "C24": ("exploration", "7 C24 and 11.8", "Every (value, path, scalar accessor) of a finite universe applied through the real interpreter on scalars, canonical streams and canonical maps and compared with plain JSON navigation: same value and same tetraplet lens, or a catchable error exactly when navigation is impossible. One known finding (absent map key followed by accessors) is listed in known_findings.json."),
+})
+CHECKS.update({
+ "C18": ("model_checking", "7 C18 and 11.8", "Every schedule of every ERR script (17 failure kinds x 8 contexts x {uncaught, caught inside, caught outside} x failing peer; xors whose left branch succeeds or still waits; xors over an uncatchable error): the handler is requested only after a catchable failure, never for successful/waiting left branches, never for uncatchable errors; at quiescence of a caught variant the handler has run; the (error_code, message) the handler receives through :error: equal the (ret_code, error_message) the uncaught variant's runs end with."),
+ "C27": ("exploration", "7 C27 and 11.8", "Every distinct honest data blob of the harvested explorations round-trips through three encode/decode routes; envelopes around broken inner data (all truncation lengths and byte flips of the first blobs) keep their versions readable and are answered with the data-deserialization error and the previous data; generated call-request and call-result maps round-trip through both decoders; payloads re-tagged with 18 other codec prefixes (MessagePack and JSON bodies) are refused by both decoders and by the interpreter."),
+ "C28": ("exploration", "7 C28 and 11.8", "Every generated script the parser accepts is beautified with indent steps 1, 2, 4, 7 and the output, read back as (depth, line) pairs, is compared with an expected rendering computed from the script text by an independent reader: every instruction in order, depth = nesting depth with sequences flattened, compound heads and operands as written."),
 })
 NOT_BUILT = {
  "C01": "no check claimed: the fault-enumeration sweep (isolated worker, JSON-tree tamper pipeline) designed in DESIGN.md 7 C01 was not built in the time available; the six crash sites reproduced by hand in the design phase are described there",
